@@ -201,16 +201,18 @@ class Builder:
     def new(self, mode=None, deadline=None):
         rng = self.rng
         if self.mcs is not None and self.live >= self.mcs:
-            if self.blocked:
+            if self.blocked or self.gclosed:
+                # a second quota-blocked NewStream, or one blocked while the client drains on its own (its wake-up
+                # by a freed quota token races with loopy closing the drained connection)
                 return False
             self.blocked = True
             if deadline is None:
                 deadline = rng.choice([0, 30, 100, 400])
         else:
+            self.live += 1      # upper bound on the streams counted against the quota (never decremented)
             if not self.drain and not self.dead:
                 self.ids.append(self.next_id)
                 self.next_id += 2
-                self.live += 1
         if mode is None:
             mode = rng.choice("rw")
         if deadline is None:
